@@ -304,8 +304,12 @@ def code_key(step, code):
 
 
 def shrink(spec, seed, want):
+    import time
     cur = spec
-    for _ in range(12):
+    t0 = time.time()
+    for _ in range(8):
+        if time.time() - t0 > 40:
+            break
         cands = shrink_candidates(cur)
         if not cands:
             break
@@ -393,7 +397,7 @@ def run(args, rep, info, broken, rng):
         for s, c in real:
             key = code_key(s, c)
             seen.setdefault(key, []).append(i)
-    for key in sorted(seen):
+    for key in sorted(seen)[:5]:
         for idxs in [seen[key]]:
             i = idxs[0]
             small = specs[i] if args.replay else shrink(specs[i], seeds[i], key)
